@@ -85,7 +85,7 @@ def run(ctx):
                 "normalized tree for documents); non-trivial = document whose tree has a child or an attribute, or "
                 "non-document text of >= 4 bytes; distinct = distinct case lines (hash)")
     # V: random trees through encode/decode, mutated documents and random bytes through decode; TLC judges every event
-    files = ctx.record(rec, ctx.pick(8, 32), ctx.pick(250, 1500), "V/XmlText")
+    files = ctx.record(rec, ctx.pick(8, 32), ctx.pick(250, 800), "V/XmlText")
     if files:
         ctx.add_samples([x for x in (_sample(files[0], '"e":"rt"', 1500),) if x])
     ctx.validate_traces("Trace_XmlText", "Trace_XmlText", files, label="V/XmlText", timeout=ctx.pick(600, 3000), xss="1g", xmx="4g")
